@@ -34,7 +34,12 @@ def roundtrip(raw):
         with contextlib.redirect_stdout(out), warnings.catch_warnings():
             warnings.simplefilter('ignore')
             d = load(io.BytesIO(raw))
-            d._loaded_sections = dict([(u'', L.loaded_sections(d))] + [(o.folder[1:] + u'/', L.loaded_sections(o)) for o in d.childobjects])
+            def allsecs(doc, acc):
+                acc[doc.folder[1:] + u'/' if doc.folder else u''] = L.loaded_sections(doc)
+                for o in doc.childobjects:
+                    allsecs(o, acc)
+                return acc
+            d._loaded_sections = allsecs(d, {})
             b = io.BytesIO()
             d.save(b)
         return b.getvalue(), out.getvalue(), None, d
@@ -267,7 +272,7 @@ def sample_files():
     return sorted(set(os.path.relpath(f, common.REPO) for f in fs))
 
 
-SHAPES = ('plain', 'objects', 'nested', 'objpics', 'gap', 'long', 'order')
+SHAPES = ('plain', 'objects', 'nested', 'objpics', 'gap', 'long', 'order', 'many')
 
 
 def build_case(recipe):
@@ -351,6 +356,9 @@ def gen_cases(chk):
     for f in files:
         if os.path.basename(f) in ('emb_spreadsheet.odp', 'spreadsheet-with-macro.ods'):
             cases.append({'base': 'file:' + f, 'mut': 'object-renumber', 'seed': rng.getrandbits(48)})
+            cases.append({'base': 'file:' + f, 'mut': 'replicate-objects', 'seed': rng.getrandbits(48)})
+        if os.path.basename(f) in ('simplelist.odt', 'twolevellist.odt', 'headerfooter.odt', 'pythagoras.ods'):
+            cases.append({'base': 'file:' + f, 'mut': 'same-name-kinds', 'seed': rng.getrandbits(48)})
     for w in ('w1', 'w2', 'w4'):
         cases.append({'base': 'witness:' + w, 'mut': None, 'seed': 0})
     nsyn = 6 if chk.tier == 'thorough' else 2
